@@ -196,6 +196,15 @@ func crashBody(c *Ctx, s *sim.Sim, at int, tag string) (victimSteps int) {
 		for j := 0; j < nOps; j++ {
 			kind := []cache.EntryKind{cache.CAS, cache.AC, cache.RAW}[r.Weighted(3, 2, 1)]
 			k, b := newVal(kind)
+			if kind == cache.CAS && r.Chance(1, 4) {
+				// re-upload of a blob that is already stored and acknowledged
+				for _, p := range pre {
+					if p.k.kind == cache.CAS {
+						k, b = p.k, p.b
+						break
+					}
+				}
+			}
 			k.vals[b.Hash] = b.Data
 			op := victimOp{key: k, val: b, cuts: world.DrawCuts(r, len(b.Data))}
 			if kind == cache.CAS {
@@ -421,8 +430,11 @@ func verifyKey(s *sim.Sim, cl *world.Client, k *crashKey, roomy bool, cfg world.
 				hits++
 				if !bytes.Equal(x.res.Data, content) {
 					what := "wrong-bytes"
-					if k.flight && len(k.acked) == 0 && len(x.res.Data) < len(content) && bytes.HasPrefix(content, x.res.Data) {
+					if k.flight && len(x.res.Data) < len(content) && bytes.HasPrefix(content, x.res.Data) {
 						what = "torn-inflight-prefix" // the file of an upload that was in flight at the kill, as far as it got
+						if len(k.acked) > 0 {
+							what = "torn-inflight-reupload" // ... of a blob that was already stored and acknowledged
+						}
 					}
 					s.Violate("C08.read-mismatch", "cas/"+x.name+"/"+what+"/wrote="+wrote, "after kill+restart a read of CAS %s via %s returned %d bytes that do not match the digest (blob has %d bytes; acked=%v in-flight=%v)", short(k.hash), x.name, len(x.res.Data), n, len(k.acked) > 0, k.flight)
 				}
@@ -439,7 +451,11 @@ func verifyKey(s *sim.Sim, cl *world.Client, k *crashKey, roomy bool, cfg world.
 					bad = append(bad, x.name+":"+x.res.Code)
 				}
 			}
-			s.Violate("C08.acked-kept", "cas", "CAS blob %s was acknowledged before the kill but is not served after the restart via %v", short(k.hash), bad)
+			site := "cas"
+			if k.flight {
+				site = "cas/reupload-in-flight" // a second upload of the same blob was in flight at the kill
+			}
+			s.Violate("C08.acked-kept", site, "CAS blob %s was acknowledged before the kill but is not served after the restart via %v", short(k.hash), bad)
 		}
 		return
 	}
@@ -465,7 +481,11 @@ func verifyKey(s *sim.Sim, cl *world.Client, k *crashKey, roomy bool, cfg world.
 				s.Violate("C08.read-mismatch", k.kind.String()+"/"+x.name+"/"+what, "after kill+restart a read of %s %s via %s returned %d bytes that are not byte-identical to any completed upload (acked=%v in-flight=%v)", k.kind, short(k.hash), x.name, len(x.res.Data), len(k.acked) > 0, k.flight)
 			}
 		} else if len(k.acked) > 0 && roomy && !(x.res.Found && x.res.OK) {
-			s.Violate("C08.acked-kept", k.kind.String(), "%s %s was acknowledged before the kill but is not served after the restart via %s: %s", k.kind, short(k.hash), x.name, x.res)
+			site := k.kind.String()
+			if k.flight {
+				site += "/overwrite-in-flight"
+			}
+			s.Violate("C08.acked-kept", site, "%s %s was acknowledged before the kill but is not served after the restart via %s: %s", k.kind, short(k.hash), x.name, x.res)
 		}
 	}
 }
